@@ -677,7 +677,7 @@ func genAdvPeer(rt *rapid.T, nm *hx.NodeMachine, cfg genCfg) hx.NOp {
 			}
 		}
 	case 5:
-		op.CBIn = rapid.SampledFrom([]int{1, 2, 3, 5}).Draw(rt, "cbin")
+		op.CBIn = rapid.SampledFrom([]int{1, 2, 3, 5, 6, 7}).Draw(rt, "cbin")
 		op.Expect = "coinbase-with-input-or-write"
 	case 6:
 		// the first transaction of the block is a plain transfer that its initiator did not sign
